@@ -105,6 +105,8 @@ inline void register_universe(std::vector<TypeOps>& l) {
   REGQ(Result<Err, u8>) REGQ(Result<Err, i16>) REGQ(Result<Err, u32>) REGQ(Result<Err, i64>) REGQ(Result<Err, bool>)
   REGQ(Result<Err, float>) REGQ(Result<Err, EI16>) REGQ(Result<Err, string>) REGQ(Result<ErrU8, string>) REGQ(Result<ErrU8, i64>)
   REGT(Result<Err, char>) REGT(Result<ErrU8, u8>)
+  // nested results (same error type): the outer holds a value whose own state is value / error / empty
+  REGQ(Result<Err, Result<Err, u8>>) REGQ(Result<Err, Result<Err, string>>) REGQ(Optional<Result<Err, Result<Err, i16>>>)
   REGQ(Variant<u8>) REGQ(Variant<string>) REGQ(Variant<u8, i16, u32>) REGQ(Variant<i64, bool, char>)
   REGQ(Variant<float, EI16, string>) REGQ(Variant<i32, string>) REGT(Variant<u64, double, vector<u8>, string, bool>)
   // structures
